@@ -311,6 +311,17 @@ def summarize(o):
     return {k: ([r[0] for r in v[0]][:6], len(v[0]), v[1]) for k, v in o.items()}
 
 
+# 24-byte names that are not WAL names: multi-byte characters straddling byte 4 (where the crate slices the
+# name), around it, at the end; and names that are not UTF-8 at all
+ODD_NAMES = [b"wal" + "\u2011".encode() + b"0" * 17 + b"1",
+             b"wa" + "\u20ac".encode() + b"0" * 19,
+             b"wal" + "\u00e9".encode() + b"0" * 19,
+             b"wal-" + "\u00e9".encode() * 10,
+             b"wal-" + b"0" * 17 + "\u20ac".encode(),
+             b"wal-" + b"\xff" * 20,
+             b"\xe2\x80" + b"wal-" + b"0" * 18]
+
+
 # =========================================================================== C01
 class C01(PropBase):
     pid = "C01"
@@ -608,10 +619,11 @@ class C17(PropBase):
                 "WAL-00000000000000000001", "wal-0000000000000000\uff11".encode().decode("unicode_escape"),
                 "wal-99999999999999999999", "wal-18446744073709551616", "wal-0000000000000000000a",
                 "notes.txt", ".hidden", "wal-", "wal-00000000000000000001.bak"]
+        near = [n.encode() for n in near] + ODD_NAMES
         rng.shuffle(near)
-        for nm in near[: rng.randrange(2, 7)]:
+        for nm in near[: rng.randrange(2, 8)]:
             content = mrl.gen_payload(rng.choice([0, 1, 50, 3000]), rng.randrange(1, 99)).hex() or "-"
-            seeds.append("seedfile %s f %s" % (nm.encode().hex(), content))
+            seeds.append("seedfile %s f %s" % (nm.hex(), content))
         used = set()
         # pre-existing (empty) WAL files at gapped numbers
         nums = []
